@@ -86,7 +86,7 @@ def convert_to_6_bytes(content: int) -> bytes:
 
 
 def convert_to_8_bytes(content: int) -> bytes:
-    return struct.pack(">q", content)
+    return struct.pack(">Q", content)
 
 
 def convert_to_integer_from_bytes(bytes: bytes) -> int:
